@@ -529,4 +529,42 @@ theorem ulp_lower (F : Fmt) (a b : Nat) (hb : 0 < b) :
     _ ≤ 2 * 2 ^ F.mbits * (2 ^ ((k * 2 ^ F.mbits + m) / 2 ^ F.mbits - 1) * b) :=
         Nat.mul_le_mul_left _ (Nat.mul_le_mul_right b hpow)
 
+
+/-- **Upper error bound in every range** (normal: relative `2^-(mbits+1)`; subnormal: half a unit):
+    `M ≤ (1+ε)·a/b + 1/2` -/
+theorem roundMag_upper (F : Fmt) (a b : Nat) (hb : 0 < b) :
+    2 * 2 ^ F.mbits * (magOfBits F (roundMag F a b) * b) ≤ (2 * 2 ^ F.mbits + 1) * a + 2 ^ F.mbits * b := by
+  rw [mag_roundMag F a b hb]
+  have hc : 0 < b * 2 ^ kOf F a b := Nat.mul_pos hb (two_pow_pos' _)
+  have hbr := rne_bracket a (b * 2 ^ kOf F a b) hc
+  have e0 : rne a (b * 2 ^ kOf F a b) * 2 ^ kOf F a b * b
+      = rne a (b * 2 ^ kOf F a b) * (b * 2 ^ kOf F a b) := by ring
+  rw [e0]
+  unfold adiff at hbr
+  generalize hm : rne a (b * 2 ^ kOf F a b) * (b * 2 ^ kOf F a b) = mc at hbr ⊢
+  generalize hP : 2 ^ F.mbits = P
+  have e1 : (2 * P + 1) * a = 2 * P * a + a := by ring
+  rcases Nat.eq_zero_or_pos (kOf F a b) with hk | hk
+  · rw [hk] at hbr
+    simp only [Nat.pow_zero, Nat.mul_one] at hbr
+    -- 2(mc − a) ≤ b
+    have h1 : 2 * mc ≤ 2 * a + b := by omega
+    calc 2 * P * mc = P * (2 * mc) := by ring
+      _ ≤ P * (2 * a + b) := Nat.mul_le_mul_left _ h1
+      _ = 2 * P * a + P * b := by ring
+      _ ≤ (2 * P + 1) * a + P * b := by omega
+  · obtain ⟨h1, _⟩ := kOf_pos F a b hk
+    have h2 := (Nat.le_div_iff_mul_le hb).1 h1
+    have h3 : P * (b * 2 ^ kOf F a b) ≤ a := by
+      rw [← hP]
+      calc 2 ^ F.mbits * (b * 2 ^ kOf F a b) = 2 ^ F.mbits * 2 ^ kOf F a b * b := by ring
+        _ ≤ a := h2
+    generalize b * 2 ^ kOf F a b = c at hbr h3
+    have h4 : 2 * mc ≤ 2 * a + c := by omega
+    calc 2 * P * mc = P * (2 * mc) := by ring
+      _ ≤ P * (2 * a + c) := Nat.mul_le_mul_left _ h4
+      _ = 2 * P * a + P * c := by ring
+      _ ≤ 2 * P * a + a := by omega
+      _ ≤ (2 * P + 1) * a + P * b := by omega
+
 end SJ.Proofs.Ieee
